@@ -36,8 +36,9 @@ ASSUMPTIONS = [
     'relabel: clashing relabels (two keys mapped to one name) are excluded; the list-of-new-names spelling is used only on '
     'mappings with >= 2 keys (a single bare string is the prefix/suffix spelling)',
     'attribute access on an absent key must raise (AttributeError or KeyError); nothing else is asserted about it',
-    'Dict.__call__: self-referencing definitions (a = lambda a: ...) are excluded; no derived key is called "key" (the name '
-    'Dict passes the key under); every parameter of a definition names a base key, a constant keyword or another definition',
+    'Dict.__call__: self-referencing definitions (a = lambda a: ...) are excluded; a member or a definition literally called "key" (the name '
+    'Dict passes the key being computed under) is an ordinary member: the mapping wins over that default, as Dict.apply documents; '
+    'every parameter of a definition names a base key, a constant keyword or another definition',
     'Dict.__call__ non-termination is decided by a fuel bound of %d line events inside Dict.__call__ (a correct call on 6 '
     'definitions needs < 100); the engine watchdog remains as a safety net',
 ]
@@ -583,6 +584,8 @@ def _plan(case):
     if variant == 'override':
         names[0] = 'p'               # a definition that replaces the base key p; the others that read p depend on it
         base[0] = ['q']
+    if variant == 'keydef':
+        names[0] = 'key'             # a definition literally called 'key' (the name under which Dict hands a function the key being computed)
     params = {}
     for i, nm in enumerate(names):
         ps = _dedup([x for x in base[i] if x != nm] + [names[j] for j in deps[i]])
@@ -620,7 +623,13 @@ def check_call(case):
     src = {n: _source(n, params[n]) for n in names}
     funcs = {n: eval(src[n], {}) for n in names}
     consts = {'q': 20} if variant == 'const' else {}
-    env = {'p': 1, 'q': 2}
+    P = 'p'
+    if variant == 'keymember':       # the mapping's own member is called 'key': a function asking for `key` gets the member, like any other name
+        P = 'key'
+        params = {n: [P if x == 'p' else x for x in ps] for n, ps in params.items()}
+        src = {n: _source(n, params[n]) for n in names}
+        funcs = {n: eval(src[n], {}) for n in names}
+    env = {P: 1, 'q': 2}
     env.update(consts)
     val = _model(names, params, env)
     expect = None
@@ -636,11 +645,11 @@ def check_call(case):
         out.sub()
         if has_edge:
             out.nontrivial('o%d' % oi)
-        d = cls(p=1, q=2)
+        d = cls(**{P: 1, 'q': 2})
         kwargs = {}
         for n in order:
             kwargs[n] = funcs[n] if n in funcs else consts[n]
-        what = '%s(p=1, q=2)(%s)' % (cname, ', '.join('%s=%s' % (n, src[n] if n in src else repr(consts[n])) for n in order))
+        what = '%s(%s=1, q=2)(%s)' % (cname, P, ', '.join('%s=%s' % (n, src[n] if n in src else repr(consts[n])) for n in order))
         try:
             res = _fuelled(lambda: d(**kwargs))
             out.call()
@@ -668,7 +677,7 @@ def check_call(case):
                 out.viol('call-wrong-result', '%s: expected %s got %s' % (what, show(expect), show(dict(res) if isinstance(res, dict) else res)), **sig)
             if res is d:
                 out.viol('not-a-new-mapping', '%s returned the Dict it was called on' % what, op='call', **sig)
-        if type(d) is not cls or list(dict.items(d)) != [('p', 1), ('q', 2)]:
+        if type(d) is not cls or list(dict.items(d)) != [(P, 1), ('q', 2)]:
             out.viol('operand-mutated', '%s changed the Dict it was called on to %r' % (what, dict(d)), op='call', **sig)
     return out
 
@@ -727,10 +736,10 @@ def gen_calls(tier):
     quick = tier == 'quick'
     for m in range(1, 5):
         graphs = list(_digraphs(m))
-        for variant in ('plain', 'override', 'const'):          # variant outside the graph loop: neighbouring cases cost the same
+        for variant in ('plain', 'override', 'const', 'keymember', 'keydef'):          # variant outside the graph loop: neighbouring cases cost the same
             if m == 4 and quick and variant != 'plain':
                 continue
-            for cname in (('Dict', 'SubDict') if (m <= 3 or (variant == 'plain' and not quick)) else ('Dict',)):
+            for cname in (('Dict', 'SubDict') if ((m <= 3 and variant[:3] != 'key') or (variant == 'plain' and not quick)) else ('Dict',)):
                 for deps in graphs:
                     yield {'m': m, 'deps': deps, 'variant': variant, 'cls': cname}
     if tier != 'quick':
@@ -761,7 +770,7 @@ def suites(tier, seed):
               bounds=dict(keys=len(universe), selections=nsel, classes=3)),
         Suite('dict_call', lambda: gen_calls(tier), check_call,
               rule='Dict(p=1, q=2)(**definitions): every digraph without self-loops on m <= 4 definitions x every keyword order (m!, and (m+1)! '
-                   'with a constant keyword q=20) x {plain, a definition overriding base key p, a constant keyword}%s; non-trivial = (graph, '
+                   'with a constant keyword q=20) x {plain, a definition overriding base key p, a constant keyword, the base key p called "key", a definition called "key"}%s; non-trivial = (graph, '
                    'order) pairs with at least one edge among the definitions' % (
                        ' (m = 4: plain only)' if quick else '; m = 5, 6: %d structured families (chains, trees, stars, diamonds, total order, every '
                        'single cycle, cycle with tail in both directions, two disjoint cycles) x all 120 / 720 orders' % len(_families(6))),
